@@ -727,10 +727,15 @@ class C15(NlpCheck):
         return {"kind": kind, "method": m['kind'], "grid": m['grid']['kind'], "uniform": m['grid']['kind'] == 'uniform'}
 
     def correspondence(self):
-        self.rows_slice()
-        self.sufficiency_slice()
-        self.rejected_slice()
-        self.tightness_slice()
+        for sl in (self.rows_slice, self.sufficiency_slice, self.rejected_slice, self.tightness_slice):
+            for attempt in range(3):
+                try:
+                    sl()
+                    break
+                except OverflowError:
+                    # an exact rational beyond the range of a double while formatting or comparing: not a finding; the slice is
+                    # re-entered with the PRNG advanced (at most three times)
+                    self.count("slice-restarted-after-overflow")
 
     def rows_slice(self):
         R = self.R_quick if self.tier == 'quick' else self.R_thorough
@@ -868,7 +873,7 @@ class C15(NlpCheck):
                     if fl(val) < fl(cert) - tol:
                         return ("the smallest slack of the grid='inf' rows of integrator step %d is %s, but the refined sample of the constrained expression "
                                 "at t=%s (inside that step) has slack %s: rows satisfied with that margin do not imply the constraint there"
-                                % (st, float(cert), float(tv[i][0]), float(val)),
+                                % (st, fl(cert), fl(tv[i][0]), fl(val)),
                                 {"desc": desc, "x": xv, "p": pv, "step": st, "t": tv[i][0], "certificate_min": cert, "sample_slack": val})
         return None
 
@@ -963,9 +968,10 @@ class C15(NlpCheck):
                                                              'features': {'p': 0.0, 'pc': 0.0, 'qstate': 0.0, 'time': 0.5}})
             if E.mentions(base['cons'][0]['a'][0], {'pow'}):
                 continue      # degree-12 Bernstein forms: rockit's numeric basis transformation is too noisy for a gap measurement
+            base['T'] = ('num', Fr(1, 2))      # a short horizon: the steps reach the asymptotic regime within the M range used
             gaps = []
             xv = None
-            for M in (1, 2, 4, 8):
+            for M in (1, 4, 16):
                 d = copy.deepcopy(base)
                 d['method']['M'] = M
                 try:
@@ -1002,7 +1008,7 @@ class C15(NlpCheck):
                 nsteps = d['method']['N'] * M
                 gap = 0.0
                 for st in range(nsteps):
-                    cert = min(float(a_[0]) for a_ in info["chunks"][0][st])
+                    cert = min(fl(a_[0]) for a_ in info["chunks"][0][st])
                     true = min(sv[st * 16:(st + 1) * 16 + (1 if st == nsteps - 1 else 0)])
                     gap = max(gap, true - cert)
                 gaps.append(gap)
@@ -1010,10 +1016,10 @@ class C15(NlpCheck):
             if not gaps:
                 continue
             self.count("tightness-runs")
-            # gap_M must not grow and must have dropped substantially by M=8 (quadratic in the step for smooth data)
-            if gaps[0] > 1e-6 and not (gaps[3] <= 0.35 * gaps[0] + 1e-7):
+            # the gap must have dropped by M=16 (it is quadratic in the step for smooth data: a factor 256 in the limit; demand 2)
+            if max(gaps[0], gaps[1]) > 1e-5 and not (gaps[2] <= 0.5 * max(gaps[0], gaps[1]) + 1e-7):
                 self.slice_ok[name] = False
-                self.violation("certificate gap does not shrink as M grows: gaps for M=1,2,4,8 are %s" % gaps, {"desc": base, "gaps": gaps},
+                self.violation("certificate gap does not shrink as M grows: gaps for M=1,4,16 are %s" % gaps, {"desc": base, "gaps": gaps},
                                {"kind": "inf-not-tight"})
                 return
 
